@@ -85,9 +85,8 @@ class DetectVarNames( ast.NodeVisitor ):
           x = v.id
           if   x in self.closure: n = (True, x)
           elif x in self.globals: n = (False, x)
-        elif isinstance( v, ast.Call ): # int(x)
-          for x in v.args:
-            self.visit(x)
+        elif isinstance( v, ast.Call ): # int(x), or a helper function pick()
+          self.visit( v )
         elif isinstance( v, ( ast.Subscript, ast.BinOp, ast.UnaryOp, ast.IfExp ) ):
           # s.sel[0:2], s.vec[0], s.a + 1: the signals inside the index are read
           self.visit( v )
@@ -188,9 +187,8 @@ class DetectVarNames( ast.NodeVisitor ):
           x = v.id
           if   x in self.closure: n = (True, x)
           elif x in self.globals: n = (False, x)
-        elif isinstance( v, ast.Call ): # int(x)
-          for x in v.args:
-            self.visit(x)
+        elif isinstance( v, ast.Call ): # int(x), or a helper function pick()
+          self.visit( v )
         elif isinstance( v, ( ast.Subscript, ast.BinOp, ast.UnaryOp, ast.IfExp ) ):
           # s.sel[0:2], s.vec[0], s.a + 1: the signals inside the index are read
           self.visit( v )
